@@ -261,9 +261,66 @@ def selfcheck() -> None:
         shutil.rmtree(d, ignore_errors=True)
 
 
+def rule_skip_key(ctx: Ctx) -> None:
+    """MEMO-KEY, early-return form: `if self.S is not None and <still valid>: return` in a method that later assigns
+    self.S from a per-call argument.  The validity test has to compare that argument (or a field stamped with it)."""
+    p = ctx.prog
+    ctx.rule('MEMO-KEY', 'a lazily cached value derived from a per-call argument is keyed by that argument', floor=0)
+    n_meth = 0
+    for f in p.functions():
+        if f.cls is None or f.parent is not None or f.name == '__init__':
+            continue
+        n_meth += 1
+        params = [x for x in f.params if x != 'self']
+        if not params:
+            continue
+        rets = [n for n in p.nodes(f) if isinstance(n, ast.Return) and (n.value is None or isinstance(n.value, ast.Constant))]
+        if not rets:
+            continue
+        # producers: self.S = expr with a parameter among the inputs of expr
+        prods: dict[str, list[tuple[ast.Assign, set[str]]]] = {}
+        stamped: dict[str, set[str]] = {}
+        for n in p.nodes(f):
+            if isinstance(n, ast.Assign):
+                for t in n.targets:
+                    a = _self_attr(t)
+                    if a is not None and not _is_reset(n.value):
+                        ps, _fs = _slice_inputs(p, f, n.value)
+                        ps &= set(params)
+                        if ps:
+                            prods.setdefault(a, []).append((n, ps))
+                            stamped.setdefault(a, set()).update(ps)
+        if not prods:
+            continue
+        for r in rets:
+            atoms = []
+            for g in flow.guards(p, f, r):
+                atoms += conjuncts(g.test, g.polarity)
+            present = set()
+            for a, pol in atoms:
+                if isinstance(a, ast.Compare) and len(a.ops) == 1 and isinstance(a.comparators[0], ast.Constant) and a.comparators[0].value is None:
+                    s_ = _self_attr(a.left)
+                    if s_ is not None and ((isinstance(a.ops[0], ast.IsNot) and pol) or (isinstance(a.ops[0], ast.Is) and not pol)):
+                        present.add(s_)
+            names = {x.id for a, _pol in atoms for x in ast.walk(a) if isinstance(x, ast.Name)}
+            gfields = {_self_attr(x) for a, _pol in atoms for x in ast.walk(a) if _self_attr(x) is not None}
+            for slot in sorted(present & set(prods)):
+                for n, ps in prods[slot]:
+                    if n.lineno <= r.lineno:
+                        continue
+                    for prm in sorted(ps):
+                        keyed = prm in names or any(prm in stamped.get(fl, set()) for fl in gfields if fl != slot)
+                        ctx.check(keyed, 'MEMO-KEY', f, f'early return keeps self.{slot}; recomputation depends on {prm}', f'self.{slot} <- {prm} (early return)',
+                                  f'{f.short}: returns early at line {r.lineno} while self.{slot} is present (guard: {[("" if pol else "not ") + norm(a) for a, pol in atoms]}) '
+                                  f'although self.{slot} is computed from the argument {prm!r}, which the guard does not compare: '
+                                  f'a call with a different {prm} keeps the value computed for an earlier one', r)
+    ctx.ok('MEMO-KEY', 'kfac', f'{n_meth} methods scanned for early-return validity tests', None)
+
+
 def rule_memo(ctx: Ctx) -> None:
     p = ctx.prog
     ctx.do(rule_dirty)
+    ctx.do(rule_skip_key)
     ctx.do(rule_frozen)
     ctx.rule('MEMO-KEY', 'a lazily cached value derived from a per-call argument is keyed by that argument', floor=0)
     ctx.rule('MEMO-INVAL', 'a lazily cached value is cleared wherever a field it is derived from is assigned', floor=0)
